@@ -860,6 +860,67 @@ def check_slice_positions(P, ctx):
     ctx.floor(rule, 4)
 
 
+def check_slice_get_keeps_position(P, ctx):
+    """the position of a Slice walk lives in the Int its Range owns; Range's get writes its answer into that same Int.  get on a Slice
+    between two cursor steps must therefore leave the Int as it found it, or the walk continues from the index that was looked up (items
+    repeated, skipped, or read past the slice).  Evaluated: Slice's get for every index of slices [start, stop, step] with the walk at
+    each position."""
+    from . import cint
+    rule = 'C11.slice-get-keeps-position'
+    fn = P.fn(P.slot('Slice', 'Get', 'get'))
+    ctx.fn(fn)
+    bad, unsup, ncase = None, None, 0
+    for (start, stop, step) in ((0, 3, 1), (2, 6, 1), (1, 7, 2), (0, 6, -1), (2, 8, -2)):
+        n = len(range(start, stop, abs(step)))
+        for pos in range(start, stop):
+            for k in range(-n, n):
+                atoms = {('global', 'NULL'): 0, ('global', 'Terminal'): 7777,
+                         ('elem', 'self', 0, 'iter'): 7100, ('elem', 'self', 0, 'range'): ('ep', 'range', 0),
+                         ('elem', 'range', 0, 'value'): ('ep', 'rval', 0), ('elem', 'range', 0, 'start'): start, ('elem', 'range', 0, 'stop'): stop,
+                         ('elem', 'range', 0, 'step'): step, ('elem', 'rval', 0, 'val'): pos}
+
+                def call(nm, e, it, k=k):
+                    if nm == 'c_int':
+                        v = it.ev(e[2][0])
+                        if v == 9000:
+                            return k
+                        if v == ('ep', 'rval', 0):
+                            return it.atoms[('elem', 'rval', 0, 'val')]
+                        if isinstance(v, tuple) and v[0] == 'stack':
+                            return v[2][0]
+                        raise cint.NoEval('c_int of %r' % (v,))
+                    if nm == 'get' and it.ev(e[2][0]) == 7100:
+                        a = it.ev(e[2][1])
+                        if a == ('ep', 'rval', 0):
+                            return 100000 + it.atoms[('elem', 'rval', 0, 'val')]
+                        if isinstance(a, tuple) and a[0] == 'stack':
+                            return 100000 + a[2][0]
+                        raise cint.NoEval('get with %r' % (a,))
+                    raise cint.NoEval('call %s' % nm)
+                it = cint.CInt(P, fn, atoms=atoms, call=call, recurse=True, strict=True, max_depth=5)
+                it.atoms = atoms
+                r = it.run([('ep', 'self', 0), 9000])
+                ncase += 1
+                if r[0] == 'stuck':
+                    unsup = unsup or 'slice %d:%d:%d, get(%d): %s' % (start, stop, step, k, r[1])
+                    continue
+                after = atoms[('elem', 'rval', 0, 'val')]
+                if after != pos:
+                    bad = bad or 'slice %d:%d:%d with the walk at underlying index %d: after get(%d) the walk stands at %s' % (start, stop, step, pos, k, after)
+                if r[0] == 'ret':
+                    kk = k + n if k < 0 else k
+                    want = 100000 + (start + step * kk if step > 0 else stop - 1 + step * kk)
+                    if r[1] != want:
+                        bad = bad or 'slice %d:%d:%d: get(%d) reads the underlying item %s, the slice selects %d there' % (start, stop, step, k, r[1] - 100000 if isinstance(r[1], int) else r[1], want - 100000)
+    if unsup and not bad:
+        ctx.undecided(rule, fn['name'], site(fn), 'leaves the evaluated fragment: ' + unsup)
+    else:
+        ctx.check(bad is None, rule, fn['name'], site(fn), 'get on a Slice returns the item the slice selects at that index and leaves the position of a walk in progress where it was '
+                  '(%d cases evaluated)' % ncase, [bad] if bad else None)
+    ctx.stats['paths'] += ncase
+    ctx.floor(rule, 1)
+
+
 def check_cursor_loops(P, ctx):
     """The end of an iteration is the object Terminal, not NULL: a loop that runs while a cursor obtained from iter_init / iter_next
     (or a container's own cursor functions) is merely non-NULL walks on from Terminal."""
@@ -942,6 +1003,7 @@ def run(ctx, load):
     check_len_iter_agree(P, ctx)
     check_table_scan(P, ctx)
     check_cursor_scratch(P, ctx)
+    check_slice_get_keeps_position(P, ctx)
     check_range_arithmetic(P, ctx)
     check_zip_alignment(P, ctx)
     check_slice_clamp(P, ctx)
